@@ -12,7 +12,7 @@ use proptest::prelude::*;
 pub fn def() -> PropDef {
     PropDef {
         id: "C07",
-        rule: "generated histories (1..14 ops, biased towards failing calls: adds with wrong length / out-of-range / duplicate index / too many, premature encode/decode, reset with unsupported counts or invalid shard size) on every family x engine, closed by a complete round; part big_twin: the same on few, long shards (working spaces up to 256 MiB quick / 2 GiB thorough); oracle: a twin object receives exactly the calls that returned Ok on the subject (i.e. the failing calls were never made on it); every later result - Ok/Err value and output bytes - must be identical on both, and no call may unwind. non-trivial: >=1 failed call followed by >=1 successful encode/decode; distinct by full history",
+        rule: "generated histories (1..14 ops, biased towards failing calls: adds with wrong length / out-of-range / duplicate index / too many, premature encode/decode, reset with unsupported counts or invalid shard size) on every family x engine, closed by a complete round; part failure_streaks: streaks of up to 300 steps in which every reset is preceded by a failing add and/or a failing reset (see C05 reset_streaks), then a real round compared call by call with an object that never saw any of it; part big_twin: the same on few, long shards (working spaces up to 256 MiB quick / 2 GiB thorough); oracle: a twin object receives exactly the calls that returned Ok on the subject (i.e. the failing calls were never made on it); every later result - Ok/Err value and output bytes - must be identical on both, and no call may unwind. non-trivial: >=1 failed call followed by >=1 successful encode/decode; distinct by full history",
         assumptions: &["both objects are built by the same constructor calls; recycling (into_parts -> new(Some(work))) is applied to both"],
         parts,
     }
@@ -30,6 +30,25 @@ fn parts() -> Vec<Box<dyn PartDyn>> {
     vec![
         Box::new(GenPart { name: "twin", quick: 30_000, thorough: 250_000, shrink_iters: 1500, strat: strategy, check }),
         // the same oracle on few, long shards (working spaces 1 MiB .. 256 MiB quick / 2 GiB thorough)
+        Box::new(GenPart {
+            name: "failure_streaks",
+            quick: 3_000,
+            thorough: 60_000,
+            shrink_iters: 200,
+            strat: |t| {
+                crate::props::c05::streak_strategy(t)
+                    .prop_map(|mut c| {
+                        for (i, s) in c.streaks.iter_mut().enumerate() {
+                            if s.fails == 0 {
+                                s.fails = 1 + ((s.seed as u8).wrapping_add(i as u8)) % 3;
+                            }
+                        }
+                        c
+                    })
+                    .boxed()
+            },
+            check: |c, st| crate::props::c05::run_streak(c, st, "failure_streaks", false),
+        }),
         Box::new(GenPart { name: "big_twin", quick: 24, thorough: 300, shrink_iters: 30, strat: |t| crate::props::c05::big_strategy_with(t, true), check: check_big }),
     ]
 }
